@@ -10,7 +10,7 @@
 //!
 //! stdin: one scenario per line, actions separated by ';'
 //!     do <call> | start <call> | rel <n> | run | ps <n>
-//!     | mode instant | go | mode remote
+//!     | mode instant | go | mode remote | tick (= run, then 2 s of virtual time pass)
 //!     (mode instant: the target is created with spawn_instant and its pre_start parks at a gate (it
 //!      links itself to the supervisor first, so the exit reason stays observable); `go` opens the gate.
 //!      mode remote: the target carries a REMOTE ActorId (ActorRuntime::spawn_linked_remote) and
@@ -30,11 +30,19 @@
 //!               8 rpc::call_and_forward(&cell, .., forward_to_cell, .., None)
 //!               9 rpc::multi_call(&[ActorRef::<T>::from(cell)], .., None)
 //!             (7-9 spawn tasks: on a thread without a runtime context they fall back to 3)
+//!             d: through a DerivedActorRef (ActorRef::get_derived, converter closure, TryFrom back-conversion
+//!                of a refused message); r: through ActorRef::<T>::where_is(name) (typed registry lookup with
+//!                is_message_type_of; for a wrong type the lookup itself must refuse) then send_message
+//!             u: ActorCell::send_serialized of bytes the actor's message type cannot decode (NOT generated
+//!                by the checks, see docs/notes/C02.md "Coverage audit")
 //!             s / c / q: the message enters through ActorCell::send_serialized as a Cast / a Call whose
 //!             reply receiver the caller has already dropped / a Call whose caller still waits
 //!             (a call is polled once: Pending / Ok(_) = the request was accepted = ROk)
 //!             first list: calls made from inside box_message; second: calls made by the handler
 //!             D = drain(), T = stop(None), K = kill()
+//!             Dc = supervisor.drain_children(); Dt / Dw = drain_and_wait(Some(1s)) / drain_and_wait(None): the
+//!             future is polled once (that performs the drain) and kept; it must have completed once the
+//!             actor is Stopped (checked at the end of the scenario)
 //! stdout: one line per scenario: `([ev; ...], status)`.
 //!
 //! A line starting with `stress ` runs the uncontrolled multi-thread mode (see `stress`).
@@ -56,7 +64,8 @@ use rv_harness::*;
 #[derive(Clone, Debug)]
 enum Call {
     Send(Arc<Spec>),
-    Drain,
+    /// 0 drain(); 1 supervisor.drain_children(); 2 drain_and_wait(Some); 3 drain_and_wait(None)
+    Drain(u8),
     Stop,
     Kill,
 }
@@ -129,7 +138,16 @@ impl<'a> P<'a> {
         match self.peek() {
             b'D' => {
                 self.i += 1;
-                Call::Drain
+                let k = match self.s.get(self.i) {
+                    Some(b'c') => 1,
+                    Some(b't') => 2,
+                    Some(b'w') => 3,
+                    _ => 0,
+                };
+                if k != 0 {
+                    self.i += 1;
+                }
+                Call::Drain(k)
             }
             b'T' => {
                 self.i += 1;
@@ -161,8 +179,16 @@ impl<'a> P<'a> {
                     boxfail: flags.contains('b'),
                     gate: flags.contains('g'),
                     hfail: flags.contains('f'),
-                    via: flags.chars().find(|c| c.is_ascii_digit()).map(|c| c as u8 - b'0').unwrap_or(0),
-                    ser: if flags.contains('s') {
+                    via: if flags.contains('d') {
+                        10
+                    } else if flags.contains('r') {
+                        11
+                    } else {
+                        flags.chars().find(|c| c.is_ascii_digit()).map(|c| c as u8 - b'0').unwrap_or(0)
+                    },
+                    ser: if flags.contains('u') {
+                        4
+                    } else if flags.contains('s') {
                         1
                     } else if flags.contains('c') {
                         2
@@ -216,6 +242,10 @@ struct Ctx {
     pre_gate: OnceLock<(ActorCell, Arc<tokio::sync::Semaphore>)>,
     /// reply receivers of serialized calls whose caller "still waits"
     kept: Mutex<Vec<Box<dyn std::any::Any + Send>>>,
+    /// registry name of the target
+    name: OnceLock<String>,
+    /// drain_and_wait futures that were polled once and are still pending
+    waits: Mutex<Vec<std::pin::Pin<Box<dyn std::future::Future<Output = bool> + Send>>>>,
 }
 
 /// serialized messages carry only the payload id; the receiving side finds the scripted
@@ -255,6 +285,8 @@ impl Ctx {
             remote: std::sync::atomic::AtomicBool::new(false),
             pre_gate: OnceLock::new(),
             kept: Mutex::new(Vec::new()),
+            name: OnceLock::new(),
+            waits: Mutex::new(Vec::new()),
         })
     }
     /// release the n-th started thread (if still parked) and wait until its send has returned
@@ -339,6 +371,40 @@ impl Message for HMsg {
 /// a message of a different type, for the TypeId check
 struct Wrong(u64, #[allow(dead_code)] Option<RpcReplyPort<u64>>);
 impl Message for Wrong {}
+
+/// message types of derived references (`ActorRef::get_derived`)
+struct DMsg(HMsg);
+impl From<DMsg> for HMsg {
+    fn from(d: DMsg) -> HMsg {
+        d.0
+    }
+}
+impl TryFrom<HMsg> for DMsg {
+    type Error = ();
+    fn try_from(m: HMsg) -> Result<DMsg, ()> {
+        Ok(DMsg(m))
+    }
+}
+struct DWrong(Wrong);
+impl From<DWrong> for Wrong {
+    fn from(d: DWrong) -> Wrong {
+        d.0
+    }
+}
+impl TryFrom<Wrong> for DWrong {
+    type Error = ();
+    fn try_from(m: Wrong) -> Result<DWrong, ()> {
+        Ok(DWrong(m))
+    }
+}
+
+fn unwrap_err<A, B>(r: Result<(), MessagingErr<A>>, f: impl FnOnce(A) -> B) -> Result<(), MessagingErr<B>> {
+    r.map_err(|e| match e {
+        MessagingErr::SendErr(a) => MessagingErr::SendErr(f(a)),
+        MessagingErr::ChannelClosed => MessagingErr::ChannelClosed,
+        MessagingErr::InvalidActorType => MessagingErr::InvalidActorType,
+    })
+}
 
 /// poll a `call` future exactly once (the request is sent on the first poll): an error of the
 /// initial send is returned; Pending or any CallResult means the request was accepted
@@ -425,6 +491,14 @@ fn perform(ctx: &Arc<Ctx>, c: &Call, gate: Option<Arc<Gate>>) {
                 // only the plain entry points: the default box_message decides
                 let via = match spec.via {
                     1 | 2 | 5 => spec.via,
+                    // typed registry lookup: a remote id cannot be type-checked (is_message_type_of = None),
+                    // the reference is handed out
+                    // (remote-id actors are not in the name registry, so the lookup itself finds nothing)
+                    11 if ctx.cell().is_message_type_of::<SMsg>().is_none()
+                        && ctx.name.get().and_then(|n| ActorRef::<SMsg>::where_is(n.clone())).is_some() =>
+                    {
+                        1
+                    }
                     _ => 0,
                 };
                 if spec.nonser {
@@ -432,14 +506,23 @@ fn perform(ctx: &Arc<Ctx>, c: &Call, gate: Option<Arc<Gate>>) {
                     res_term(&r, |m| m.0)
                 } else {
                     reg_put(spec, ctx);
-                    let r = send_via(ctx, via, SMsg(spec.pid), |m, _| m);
-                    res_term(&r, |m| m.0)
+                    if spec.pid % 2 == 0 {
+                        // the library's blanket Message impl for BytesConvertable types
+                        let r = send_via(ctx, via, spec.pid, |m, _| m);
+                        res_term(&r, |m| *m)
+                    } else {
+                        let r = send_via(ctx, via, SMsg(spec.pid), |m, _| m);
+                        res_term(&r, |m| m.0)
+                    }
                 }
             } else if spec.ser != 0 {
                 use ractor::message::SerializedMessage;
                 reg_put(spec, ctx);
                 let args = spec.pid.to_be_bytes().to_vec();
-                let m = if spec.ser == 1 {
+                let m = if spec.ser == 4 {
+                    // bytes that name no scripted message: the target's deserialize fails
+                    SerializedMessage::Cast { variant: "m".into(), args: u64::MAX.to_be_bytes().to_vec(), metadata: None }
+                } else if spec.ser == 1 {
                     SerializedMessage::Cast { variant: "m".into(), args, metadata: None }
                 } else {
                     let (tx, rx) = tokio::sync::oneshot::channel::<Vec<u8>>();
@@ -459,21 +542,68 @@ fn perform(ctx: &Arc<Ctx>, c: &Call, gate: Option<Arc<Gate>>) {
                     },
                 }
             } else if spec.wrong {
-                let r = send_via(ctx, spec.via, Wrong(spec.pid, None), |m, p| Wrong(m.0, Some(p)));
+                let m = Wrong(spec.pid, None);
+                let r = match spec.via {
+                    10 => {
+                        let typed: ActorRef<Wrong> = ctx.cell().clone().into();
+                        unwrap_err(typed.get_derived::<DWrong>().send_message(DWrong(m)), |d| d.0)
+                    }
+                    11 => match ctx.name.get().and_then(|n| ActorRef::<Wrong>::where_is(n.clone())) {
+                        // a typed lookup must not hand out a reference of the wrong type
+                        Some(r) => r.send_message(m),
+                        None if ctx.cell().is_message_type_of::<Wrong>() == Some(false) => Err(MessagingErr::InvalidActorType),
+                        None => ctx.cell().send_message(m),
+                    },
+                    v => send_via(ctx, v, m, |m, p| Wrong(m.0, Some(p))),
+                };
                 res_term(&r, |m| m.0)
             } else {
                 let m = HMsg { spec: spec.clone(), ctx: ctx.clone(), gate, reply: None };
-                let r = send_via(ctx, spec.via, m, |mut m, p| {
-                    m.reply = Some(p);
-                    m
-                });
+                let r = match spec.via {
+                    10 => {
+                        let typed: ActorRef<HMsg> = ctx.cell().clone().into();
+                        unwrap_err(typed.get_derived::<DMsg>().send_message(DMsg(m)), |d| d.0)
+                    }
+                    11 => match ctx.name.get().and_then(|n| ActorRef::<HMsg>::where_is(n.clone())) {
+                        Some(r) if ctx.cell().is_message_type_of::<HMsg>() == Some(true) => r.send_message(m),
+                        // unregistered (the actor is gone): the caller still holds the cell
+                        _ => ctx.cell().send_message(m),
+                    },
+                    v => send_via(ctx, v, m, |mut m, p| {
+                        m.reply = Some(p);
+                        m
+                    }),
+                };
                 res_term(&r, |m| m.spec.pid)
             };
             ctx.ev(format!("EEnd {} {}", spec.pid, r));
         }
-        Call::Drain => {
-            let r = ctx.cell().drain();
-            ctx.ev(format!("EDrainEnd {}", coq_bool(r.is_ok())));
+        Call::Drain(kind) => {
+            let in_rt = tokio::runtime::Handle::try_current().is_ok();
+            let ok = match kind {
+                1 if ctx.fwd.get().is_some() => {
+                    // the supervisor drains its children (= the target); no result is reported
+                    ctx.fwd.get().unwrap().get_cell().drain_children();
+                    true
+                }
+                2 | 3 => {
+                    let cell = ctx.cell().clone();
+                    let to = if *kind == 2 && in_rt { Some(Duration::from_secs(1)) } else { None };
+                    let mut fut: std::pin::Pin<Box<dyn std::future::Future<Output = bool> + Send>> =
+                        Box::pin(async move { !matches!(cell.drain_and_wait(to).await, Err(ractor::RactorErr::Messaging(_))) });
+                    let waker = futures::task::noop_waker();
+                    let mut cx = std::task::Context::from_waker(&waker);
+                    match fut.as_mut().poll(&mut cx) {
+                        std::task::Poll::Ready(ok) => ok,
+                        std::task::Poll::Pending => {
+                            ctx.waits.lock().unwrap().push(fut);
+                            true
+                        }
+                    }
+                }
+                _ => ctx.cell().drain().is_ok(),
+            };
+            ctx.ev(format!("EDrainEnd {}", coq_bool(ok)));
         }
         Call::Stop => {
             ctx.ev("EStopReq".into());
@@ -606,10 +736,13 @@ async fn run_case(line: &str) -> String {
     let instant = line.contains("mode instant");
     let remote = line.contains("mode remote");
     let gate = Arc::new(tokio::sync::Semaphore::new(0));
+    static CASE: std::sync::atomic::AtomicU64 = std::sync::atomic::AtomicU64::new(0);
+    let name = format!("adm-{}-{}", std::process::id(), CASE.fetch_add(1, std::sync::atomic::Ordering::SeqCst));
+    let _ = ctx.name.set(name.clone());
     let actor: ActorCell = if remote {
         ctx.remote.store(true, std::sync::atomic::Ordering::SeqCst);
         let (a, _h) = ractor::ActorRuntime::spawn_linked_remote(
-            None,
+            Some(name),
             RTarget(ctx.clone()),
             ActorId::Remote { node_id: 7, pid: 4242 },
             (),
@@ -620,10 +753,10 @@ async fn run_case(line: &str) -> String {
         a.get_cell()
     } else if instant {
         let _ = ctx.pre_gate.set((sup.get_cell(), gate.clone()));
-        let (a, _h) = ractor::ActorRuntime::spawn_instant(None, Target(ctx.clone()), ()).expect("instant target");
+        let (a, _h) = ractor::ActorRuntime::spawn_instant(Some(name), Target(ctx.clone()), ()).expect("instant target");
         a.get_cell()
     } else {
-        let (a, _ah) = Actor::spawn_linked(None, Target(ctx.clone()), (), sup.get_cell())
+        let (a, _ah) = Actor::spawn_linked(Some(name), Target(ctx.clone()), (), sup.get_cell())
             .await
             .expect("target");
         a.get_cell()
@@ -669,6 +802,15 @@ async fn run_case(line: &str) -> String {
             }
             "rel" => ctx.release(rest.trim().parse().expect("rel index")),
             "run" => quiesce().await,
+            "tick" => {
+                // like run, and the virtual clock passes the 1 s bound of pending drain_and_wait(Some) calls
+                quiesce().await;
+                tokio::time::advance(Duration::from_secs(2)).await;
+                quiesce().await;
+                let waker = futures::task::noop_waker();
+                let mut cx = std::task::Context::from_waker(&waker);
+                ctx.waits.lock().unwrap().retain_mut(|f| f.as_mut().poll(&mut cx).is_pending());
+            }
             other => panic!("unknown action {other:?}"),
         }
     }
@@ -679,6 +821,18 @@ async fn run_case(line: &str) -> String {
     }
     let status = ctx.cell().get_status() as u8;
     let log = ctx.log.lock().unwrap().clone();
+    // a drain_and_wait whose actor is Stopped must have returned
+    if status == 6 {
+        quiesce().await;
+        let waker = futures::task::noop_waker();
+        let mut cx = std::task::Context::from_waker(&waker);
+        for f in ctx.waits.lock().unwrap().iter_mut() {
+            if f.as_mut().poll(&mut cx).is_pending() {
+                ctx.hang.store(true, std::sync::atomic::Ordering::SeqCst);
+            }
+        }
+    }
+    ctx.waits.lock().unwrap().clear();
     // clean up whatever is still alive
     actor.kill();
     sup.stop(None);
@@ -739,8 +893,8 @@ fn stress(rest: &str) -> String {
             }
             match mode {
                 0 => {
-                    perform(&c, &Call::Drain, None);
-                    perform(&c, &Call::Drain, None);
+                    perform(&c, &Call::Drain(0), None);
+                    perform(&c, &Call::Drain(0), None);
                 }
                 1 => perform(&c, &Call::Stop, None),
                 _ => {}
@@ -847,12 +1001,33 @@ fn race(rest: &str) -> String {
                     box_calls: vec![],
                     hcalls: vec![],
                 });
-                let b = sh.seq.fetch_add(1, std::sync::atomic::Ordering::Relaxed);
-                let r = cell.send_message(HMsg { spec, ctx: ctx.clone(), gate: None, reply: None });
-                let e = sh.seq.fetch_add(1, std::sync::atomic::Ordering::Relaxed);
-                let ok = r.is_ok();
+                // every third sender thread goes through ActorCell::send_serialized (same admission protocol)
+                let (b, e, ok, res) = if t % 3 == 2 {
+                    reg_put(&spec, &ctx);
+                    let m = ractor::message::SerializedMessage::Cast {
+                        variant: "m".into(),
+                        args: pid.to_be_bytes().to_vec(),
+                        metadata: None,
+                    };
+                    let b = sh.seq.fetch_add(1, std::sync::atomic::Ordering::Relaxed);
+                    let r = cell.send_serialized(m);
+                    let e = sh.seq.fetch_add(1, std::sync::atomic::Ordering::Relaxed);
+                    let res = match &r {
+                        Ok(()) => "ROk".to_string(),
+                        Err(er) => match &**er {
+                            MessagingErr::SendErr(m) => format!("(RErr {})", pid_of_serialized(m)),
+                            _ => "RChannelClosed".to_string(),
+                        },
+                    };
+                    (b, e, r.is_ok(), res)
+                } else {
+                    let b = sh.seq.fetch_add(1, std::sync::atomic::Ordering::Relaxed);
+                    let r = cell.send_message(HMsg { spec, ctx: ctx.clone(), gate: None, reply: None });
+                    let e = sh.seq.fetch_add(1, std::sync::atomic::Ordering::Relaxed);
+                    (b, e, r.is_ok(), res_term(&r, |m| m.spec.pid))
+                };
                 mine.push((b, format!("EBegin {pid} false")));
-                mine.push((e, format!("EEnd {pid} {}", res_term(&r, |m| m.spec.pid))));
+                mine.push((e, format!("EEnd {pid} {res}")));
                 k += 1;
                 if k == 4 {
                     sh.warmed.store(true, std::sync::atomic::Ordering::Release);
@@ -899,6 +1074,7 @@ fn race(rest: &str) -> String {
             let _ = ctx.cell.set(actor.get_cell());
             *sh.cell.lock().unwrap() = Some(actor.get_cell());
             *sh.ctx.lock().unwrap() = Some(ctx.clone());
+            *REG.lock().unwrap() = None;
             sh.warmed.store(false, SeqCst);
             sh.spin.store(((round.wrapping_mul(2654435761).wrapping_add(seed)) % 7) * 300, SeqCst);
             sh.events.lock().unwrap().clear();
